@@ -25,6 +25,13 @@ def forall_real(fn, n=1, samples=4000, lo=-2.0, hi=40.0, seed=0):
     return True
 
 
+def exists(fn, *ranges):
+    for combo in itertools.product(*[range(int(lo), int(hi)) for lo, hi in ranges]):
+        if fn(*combo):
+            return True
+    return False
+
+
 def implies(a, b):
     return (not a) or bool(b)
 
@@ -63,7 +70,7 @@ def close(a, b, tol=1e-4):
     return abs(float(a) - float(b)) <= tol * max(1.0, abs(float(a)), abs(float(b)))
 
 
-HELPERS = dict(forall=forall, forall_real=forall_real, implies=implies, ite=ite, iff=iff, shape_eq=shape_eq, fftindex=fftindex,
+HELPERS = dict(exists=exists, forall=forall, forall_real=forall_real, implies=implies, ite=ite, iff=iff, shape_eq=shape_eq, fftindex=fftindex,
                trunc=trunc, floor=floor, ceil=ceil, close=close)
 
 
